@@ -18,7 +18,7 @@ let rec ostr (s : String.string) : string =
   | String.String (c, r) -> Stdlib.String.make 1 (char_of_ascii c) ^ ostr r
 let cstr (s : string) : String.string =
   let r = ref String.EmptyString in
-  for i = Stdlib.String.length s - 1 downto 0 do r := String.String (ascii_of_char s.[i], !r) done;
+  for i = Stdlib.String.length s - 1 downto 0 do r := String.String (ascii_of_char (Stdlib.String.get s i), !r) done;
   !r
 
 let out_str s = out_s (ostr s)
